@@ -195,3 +195,17 @@ func init() {
 		note: "partial: on initRun the call-site obligations show that the file is opened exactly once, exclusively (O_EXCL|O_CREATE, no O_TRUNC), at the path given by --config or .mockery.yml; that the only write (Encode) happens after that open succeeded, exactly once, with the RootConfig that came from config.NewDefaultKoanf plus packages = {arg: {config: {all: true, everything else unset}, interfaces: {}}}; that no other file-system mutation is reachable (fs-frame); NewDefaultKoanf is proved to load the defaults provider only. Round-tripping through YAML and the subsequent run are library behaviour and not covered.",
 	})
 }
+
+func init() {
+	register(&propInfo{
+		id:       "C11",
+		patterns: []string{"./config"},
+		trusted: []string{
+			"text/template Parse+Execute with the function library is a deterministic, terminating function render(text, data) (false for the randInt function); (*bytes.Buffer).String returns what Execute wrote",
+			"ast.IsExported, pathlib.Parent/String, filepath.Dir are uninterpreted namesakes",
+			"axiom errinfiniteloop_nonnil: the package variable ErrInfiniteLoop is non-nil and never reassigned",
+			"ConfigDir is checked against filepath.Dir(*c.ConfigFile); whether that parameter names the file actually used (search case) and InterfaceDirRelative's base directory are outside this contract (documented finding D11, not claimed)",
+		},
+		note: "partial: on Config.ParseTemplates the data handed to every template execution is proved to carry the documented bindings (Mock by exportedness of the interface name, InterfaceName/File/Dir, SrcPackageName/Path, StructName, Template, ConfigDir), the function library is attached before parsing, the result is a fixpoint (err == nil implies every one of dir/filename/pkgname/structname/template-schema renders to itself, by a ghost-visited-set invariant over the attribute map), and evaluation terminates (variant 21 - i) with a non-nil error, not a truncated value, when the 20-pass cap is hit. FindConfig and the documented meaning of InterfaceDirRelative/ConfigDir in the search case are not covered.",
+	})
+}
